@@ -181,6 +181,10 @@ def standalone_scenarios(quick, rng):
         out.append({"scn": "d%d" % i, "keys": keys, "periods": periods, "flushed": flushed, "deadlineMs": 50, "ks": sorted(set(ks)),
                     "stops": [1, 3], "queries": qs if not quick else qs[:8],
                     "web": [{"timeoutNs": 1, "maxBytes": 0}, {"timeoutNs": 0, "maxBytes": 60}, {"timeoutNs": 0, "maxBytes": 0}] if i == 0 else []})
+    # every deadline case again while the query shares its scan with one that was requested a
+    # moment earlier and leaves after its first row (a coalesced scan hands each member its own error)
+    out.append({"scn": "c0", "keys": 5, "periods": 2, "flushed": 2, "deadlineMs": 60, "ks": [0, 1, 2, 5, 9] if quick else list(range(0, 11)),
+                "stops": [], "queries": qs[:4] if quick else qs, "web": [], "companions": True})
     # the size estimate stops the scan before the whole result has been read
     out.append({"scn": "w0", "keys": 60, "periods": 2, "flushed": 60, "queries": ["SELECT * FROM t", "SELECT f FROM t GROUP BY a"],
                 "ks": [], "stops": [], "web": [{"timeoutNs": 0, "maxBytes": mb} for mb in ([1000, 2500] if quick else [400, 700, 1000, 1500, 2500, 4000])]})
@@ -212,8 +216,9 @@ def judge_standalone(pid, V, sc, lines, stats):
                 stats["deadline_incomplete"] += 1
                 if "err" not in l:
                     rp = common.save_replay(pid, "%s-deadline-%d" % (sc["scn"], stats["deadline_runs"]), {"standalone": dict(sc, queries=[l["sql"]], ks=[l["k"]], web=[]), "kind": "deadline-silent", "observed": l})
-                    V.violation(rp, "%s: `%s` under a deadline that %s returned %d of %d rows and no error"
-                                % (sc["scn"], l["sql"], "had already expired" if l["k"] < 0 else "passed while row %d was handled" % l["k"], l["got"], l["full"]))
+                    V.violation(rp, "%s: `%s` under a deadline that %s%s returned %d of %d rows and no error"
+                                % (sc["scn"], l["sql"], "had already expired" if l["k"] < 0 else "passed while row %d was handled" % l["k"],
+                                   " (sharing its scan with a query that left after one row)" if l.get("companion") else "", l["got"], l["full"]))
         elif mode == "memcap":
             stats["memcap_runs"] += 1
             if "err" not in l and l["sql"].startswith("SELECT *") and l["got"] < l["expectRows"]:
